@@ -145,11 +145,16 @@ class VModel:
         v = sim.sig[l[1]] if l[0] == "sig" else sim.var[(l[1], l[2])]
         if isinstance(v.x, list):
             return [e.x for e in v.x]
+        if isinstance(v.t, TBool):
+            # VHDL boolean <-> one bit
+            return D.bool_to_bit(v.x)
         return v.x
 
     def put(self, sim, n, bits):
         l = self.loc[n]
         t = sim.sig_t[l[1]] if l[0] == "sig" else sim.var[(l[1], l[2])].t
+        if isinstance(t, TBool):
+            bits = D.bit_to_bool(bits)
         val = V(t, [V(t.elem, b) for b in bits]) if isinstance(bits, list) else V(t, bits)
         if l[0] == "sig":
             sim.sig[l[1]] = val
